@@ -1248,7 +1248,207 @@ theorem tameP_spec {env : List Entry} {l out : List PTok} (h : TameP env l out) 
         refine ⟨Rs ++ r2, ?_, h2⟩
         exact SExp.obj ts n (ofMacro e.m) ls' _ _ hts hnp hfind (by simp [ofMacro, hfn])
           (fun ex => hsubst ex (fun i hi => by omega)) h1
-      | true => sorry
+      | true =>
+        -- function-like
+        obtain ⟨mid, hmid, hncm, hfnshape, _⟩ := readArgs_region e.m rest rest' args hra hncargs
+        obtain ⟨blanks, bl, init, br, hmidshape, hblank, hscan⟩ := hfnshape hfn
+        obtain ⟨_, _, _, _, har⟩ := readArgs_fn e.m rest rest' args hfn hra
+        -- split the paste normal form behind the closing parenthesis
+        have hrest_eq : rest = ((blanks ++ ⟨.lparen, bl⟩ :: init) ++ [⟨.rparen, br⟩]) ++ rest' := by
+          rw [hmid, hmidshape]; simp
+        have hnc0 : NoConcat (blanks ++ ⟨.lparen, bl⟩ :: init) := by
+          intro t ht
+          apply hncm t
+          rw [hmidshape]
+          rcases List.mem_append.mp ht with h | h
+          · exact List.mem_append_left _ h
+          · rcases List.mem_cons.mp h with rfl | h
+            · simp
+            · simp [h]
+        rw [hrest_eq] at hpn'
+        obtain ⟨ks'', hks'', hpnrest⟩ := pn_split env _ rest' br _ hnc0 hpn'
+        have hppmid : ppTokens ((blanks ++ ⟨.lparen, bl⟩ :: init) ++ [⟨.rparen, br⟩]) =
+            Tok.lparen :: ppTokens (init ++ [⟨.rparen, br⟩]) := by
+          rw [List.append_assoc, ppTokens_append,
+            ppTokens_ws blanks (fun t ht => blank_isWhitespace _ (hblank t ht)), List.nil_append, List.cons_append,
+            ppTokens_cons _ _ (by rfl)]
+        rw [hppmid] at hks''
+        obtain ⟨lmid, lrest, hls', hlmid, hlrest⟩ := List.map_eq_append_iff.mp hks''
+        cases lmid with
+        | nil => simp at hlmid
+        | cons lp lreg =>
+          simp only [List.map_cons, List.cons.injEq] at hlmid
+          obtain ⟨hlp, hlreg⟩ := hlmid
+          obtain ⟨lpt, lph⟩ := lp
+          simp only at hlp
+          subst hlp
+          obtain ⟨largs, hs', lrest0, hcoll0, hlrest0, hargsrel, _, hmemargs, tr, htr, htrh⟩ :=
+            scanArgs_collect (init ++ [⟨.rparen, br⟩]) [] [] 0 [] args hscan lreg [] [] hlreg rfl argsRel_nil
+          have hl0 : lrest0 = [] := by simpa [ppTokens_nil] using hlrest0
+          subst hl0
+          have hcoll : collectArgs (lreg ++ lrest) 0 [] [] = some (largs, hs', lrest) := by
+            have := collectArgs_append lreg 0 [] [] largs hs' [] lrest hcoll0
+            simpa using this
+          subst hls'
+          have hinreg : ∀ t ∈ lreg, t ∈ ts :: (⟨.lparen, lph⟩ :: lreg ++ lrest) := fun t ht => by simp [ht]
+          have hinrest : ∀ t ∈ lrest, t ∈ ts :: (⟨.lparen, lph⟩ :: lreg ++ lrest) := fun t ht => by simp [ht]
+          -- the rest of the source
+          have hrel' : RelP env lrest rest' :=
+            ⟨by rw [hlrest]; exact hpnrest, fun x hx => hrel.sup x (hinrest x hx), fun x hx => hrel.sub x (hinrest x hx)⟩
+          obtain ⟨r2, hs2, hro2⟩ := ihrest hwf lrest hrel'
+          -- the arguments
+          have hargmem : ∀ la ∈ largs, ∀ t ∈ la, t ∈ lreg := by
+            intro la hla t ht
+            rcases hmemargs la hla t ht with h | h | ⟨a0, ha0, _⟩
+            · exact h
+            · cases h
+            · cases ha0
+          have hexp : ∀ (i : Nat) (la : List HTok), largs[i]? = some la →
+              ∃ ea, SExp (specTable env) la ea ∧ ∃ a', args'[i]? = some a' ∧ RelOut env ea a' := by
+            intro i la hla
+            have hi : i < largs.length := (List.getElem?_eq_some_iff.mp hla).1
+            have hi2 : i < args.length := by rw [← hargsrel.1]; exact hi
+            have hi3 : i < args'.length := by rw [hlen]; exact hi2
+            have ha : args[i]? = some args[i] := List.getElem?_eq_getElem hi2
+            have ha' : args'[i]? = some args'[i] := List.getElem?_eq_getElem hi3
+            have hmem := hargmem la (List.mem_of_getElem? hla)
+            have hnca : NoConcat args[i] := hncargs _ (List.getElem_mem hi2)
+            have hrela : RelP env la args[i] :=
+              ⟨by rw [hargsrel.2 i la _ hla ha]; exact pn_of_noConcat env _ hnca,
+                fun x hx => hrel.sup x (hinreg x (hmem x hx)), fun x hx => hrel.sub x (hinreg x (hmem x hx))⟩
+            obtain ⟨ea, hsea, hroea⟩ := ihargs i _ _ ha ha' hwf la hrela
+            exact ⟨ea, hsea, _, ha', hroea⟩
+          obtain ⟨eargs0, helen, heargs⟩ := exists_list largs
+            (fun i la ea => SExp (specTable env) la ea ∧ ∃ a', args'[i]? = some a' ∧ RelOut env ea a') hexp
+          obtain ⟨hfix, hfixlen⟩ := fixArgs_eq e.m.numParams largs args hargsrel har
+          have hnple : e.m.numParams ≤ largs.length := by
+            rw [List.length_take] at hfixlen; omega
+          have hget : ∀ i, i < e.m.numParams → ∃ la ea a a', largs[i]? = some la ∧ eargs0[i]? = some ea ∧
+              args[i]? = some a ∧ args'[i]? = some a' ∧ la.map (·.tok) = ppTokens a ∧
+              SExp (specTable env) la ea ∧ RelOut env ea a' := by
+            intro i hi
+            have h1 : i < largs.length := by omega
+            have h2 : i < eargs0.length := by omega
+            have h3 : i < args.length := by rw [← hargsrel.1]; exact h1
+            have hla : largs[i]? = some largs[i] := List.getElem?_eq_getElem h1
+            have hea : eargs0[i]? = some eargs0[i] := List.getElem?_eq_getElem h2
+            have ha : args[i]? = some args[i] := List.getElem?_eq_getElem h3
+            obtain ⟨hse, a', ha', hro⟩ := heargs i _ _ hla hea
+            exact ⟨_, _, _, a', hla, hea, ha, ha', hargsrel.2 i _ _ hla ha, hse, hro⟩
+          have hpprange : ∀ i, i ∈ pasteParams none e.m.body → i < e.m.numParams := by
+            intro i hi
+            obtain ⟨t, ht, htk⟩ := mem_pasteParams_arg _ _ _ hi
+            exact (hwfe.argRange t ht i htk).1
+          have htakeL : ∀ i, i < e.m.numParams → ∀ la, largs[i]? = some la →
+              (largs.take e.m.numParams).getD i [] = la := by
+            intro i hi la hla
+            simp [List.getD, List.getElem?_take, hi, hla]
+          have htakeE : ∀ i, i < e.m.numParams → ∀ ea, eargs0[i]? = some ea →
+              (eargs0.take e.m.numParams).getD i [] = ea := by
+            intro i hi ea hea
+            simp [List.getD, List.getElem?_take, hi, hea]
+          obtain ⟨outb, hsubst, hksb, hgood⟩ := subst_paste (disable env mi) e.m e.m.numParams
+            (by simp [ofMacro, hfn, paramNames]) (largs.take e.m.numParams) (eargs0.take e.m.numParams) args'
+            (n :: ts.hide.filter (hs'.contains ·)) body' ksb
+            ⟨hwfe.noHash, hwfe.noParamName, fun t ht i hi => (hwfe.argRange t ht i hi).1⟩
+            (by
+              intro i hi
+              have hlt := hpprange i hi
+              obtain ⟨la, ea, a, a', hla, _, ha, _, htk, _, _⟩ := hget i hlt
+              rw [htakeL i hlt la hla]
+              have hne := (hpaok i hi a ha).2
+              cases la with
+              | cons _ _ => rfl
+              | nil =>
+                exfalso
+                simp only [List.map_nil] at htk
+                have hws := ppTokens_eq_nil htk.symm
+                unfold nonEmptyB at hne
+                rw [List.any_eq_true] at hne
+                obtain ⟨x, hx, hxw⟩ := hne
+                rw [hws x hx] at hxw
+                cases hxw)
+            hsub hncargs'
+            (by
+              intro t ht i hi
+              have hlt := (hwfe.argRange t ht i hi).1
+              obtain ⟨la, ea, a, a', _, hea, _, ha', _, _, hro⟩ := hget i hlt
+              rw [htakeE i hlt ea hea]
+              simp only [List.getD, ha', Option.getD_some]
+              exact hro.toks)
+            (by
+              intro i hi
+              have hlt := hpprange i hi
+              obtain ⟨la, ea, a, a', hla, _, ha, ha', htk, _, _⟩ := hget i hlt
+              rw [htakeL i hlt la hla]
+              have hid : a' = a := tameP_identity (hargs i a a' ha ha') (hpaok i hi a ha).1
+                (hncargs a (List.mem_of_getElem? ha))
+              simp only [List.getD, ha', Option.getD_some, hid]
+              exact htk)
+            (by
+              intro i hi s hs
+              have hlt := hpprange i hi
+              obtain ⟨la, ea, a, a', hla, _, ha, _, htk, _, _⟩ := hget i hlt
+              rw [htakeL i hlt la hla] at hs
+              exact goodItem_of_onlyDisabled a la (hpaok i hi a ha).1 htk s hs)
+            (by
+              intro ea hea s hs
+              obtain ⟨i, hi⟩ := List.mem_iff_getElem?.mp hea
+              rw [List.getElem?_take] at hi
+              split at hi
+              · rename_i hlt
+                obtain ⟨la, ea2, a, a', _, hea2, _, ha', _, _, hro⟩ := hget i hlt
+                rw [hea2] at hi
+                cases hi
+                exact goodItem_of_onlyDisabled a' ea (hod a' (List.mem_of_getElem? ha')) hro.toks s hs
+              · cases hi)
+            hpnb
+          have hrelb := relP_body hsel (n :: ts.hide.filter (hs'.contains ·)) outb body'
+            (by
+              rintro x (rfl | hx)
+              · simp
+              · apply List.mem_cons_of_mem
+                rw [List.mem_filter]
+                refine ⟨htsup x hx, ?_⟩
+                have := hrel.sup tr (hinreg tr htr) x hx
+                rw [htrh] at this
+                simpa using this)
+            (by
+              intro x hx
+              rcases List.mem_cons.mp hx with rfl | hx
+              · exact Or.inl rfl
+              · exact Or.inr (htsub x (List.mem_filter.mp hx).1))
+            (by rw [hksb]; exact hpnb) hgood
+          obtain ⟨Rs, hsR, hroR⟩ := ihbody (wfP_disable hwf) _ hrelb
+          rw [specTable_disable] at hsR
+          obtain ⟨h1, h2⟩ := invoke_tailP hsel _ Rs R rest' out lrest r2 hsR hroR hnf hs2 hro2
+            (by rw [hlrest]; exact hpnrest)
+          refine ⟨Rs ++ r2, ?_, h2⟩
+          have hpar : (ofMacro e.m).params = some (paramNames e.m.numParams) := by
+            simp [ofMacro, hfn, paramNames]
+          apply SExp.fn ts n (ofMacro e.m) (paramNames e.m.numParams) lph (lreg ++ lrest) largs
+            (eargs0.take e.m.numParams) hs' lrest _ _ hts hnp hfind hpar hcoll ?_ ?_ ?_ ?_ h1
+          · rw [hfix, hfixlen]; simp [paramNames]
+          · rw [hfix, hfixlen, List.length_take]; omega
+          · intro i a ea ha hea
+            rw [hfix, List.getElem?_take] at ha
+            rw [List.getElem?_take] at hea
+            split at ha
+            · simp only [*, if_true] at hea
+              exact (heargs i a ea ha hea).1
+            · cases ha
+          · intro ex hagree
+            rw [hfix]
+            apply hsubst ex
+            intro i hi
+            obtain ⟨la, ea, a, a', hla, hea, _, _, _, _, _⟩ := hget i hi
+            have hla' : (largs.take e.m.numParams)[i]? = some la := by
+              rw [List.getElem?_take]; simp [hi, hla]
+            have hea' : (eargs0.take e.m.numParams)[i]? = some ea := by
+              rw [List.getElem?_take]; simp [hi, hea]
+            refine ⟨ea, hea', ?_⟩
+            have := hagree i la ea (by rw [hfix]; exact hla') hea'
+            simpa [List.getD, hla'] using this
 
 
 end RsslVerif.Lemmas.MacroTamePSpec
